@@ -76,7 +76,7 @@ func Compare(aVal, bVal reflect.Value) int {
 		default:
 			return 0
 		}
-	case reflect.Chan:
+	case reflect.Chan, reflect.Func, reflect.Map:
 		if c, ok := nilCompare(aVal, bVal); ok {
 			return c
 		}
@@ -97,12 +97,21 @@ func Compare(aVal, bVal reflect.Value) int {
 		}
 		return 0
 	case reflect.Slice:
-		for i := 0; i < aVal.Len(); i++ {
+		// Compare the common elements, then a shorter slice compares low.
+		aLen, bLen := aVal.Len(), bVal.Len()
+		for i := 0; i < aLen && i < bLen; i++ {
 			if c := Compare(aVal.Index(i), bVal.Index(i)); c != 0 {
 				return c
 			}
 		}
-		return 0
+		switch {
+		case aLen < bLen:
+			return -1
+		case aLen > bLen:
+			return 1
+		default:
+			return 0
+		}
 	case reflect.Array:
 		for i := 0; i < aVal.Len(); i++ {
 			if c := Compare(aVal.Index(i), bVal.Index(i)); c != 0 {
@@ -110,7 +119,7 @@ func Compare(aVal, bVal reflect.Value) int {
 			}
 		}
 		return 0
-	case reflect.Interface, reflect.Func, reflect.Map:
+	case reflect.Interface:
 		if c, ok := nilCompare(aVal, bVal); ok {
 			return c
 		}
